@@ -18,3 +18,11 @@ func verifPoint(site int, obj any) {
 		h(site, obj)
 	}
 }
+
+// VerifSetNonce sets the generation counter of the resolver (a uint32 which wraps around after 2^32 restarts), so
+// that a history can start just below the wrap-around.  To be called before the first reference is added.
+func (r *RefCount[T]) VerifSetNonce(n uint32) {
+	r.mtx.Lock()
+	r.nonce = n
+	r.mtx.Unlock()
+}
